@@ -586,6 +586,47 @@ fn run_stream(seed: u64) -> Result<u64, Fail> {
     Ok(ops)
 }
 
+// ------------------------------------------------------------------------------------------------ totext
+/// ToText over two input streams: the text is a function of the two sample sequences (one line per sample pair, tags of
+/// that sample in parentheses), however the inputs arrive and however little output space there is.
+fn run_totext(seed: u64) -> Result<u64, Fail> {
+    let t = "totext";
+    let mut rng = Rng(seed * 32452843 + 5);
+    let n = 3000;
+    let a: Vec<u32> = (0..n).map(|i| (i * 7 % 1000) as u32).collect();
+    let b: Vec<u32> = (0..n - 100).map(|i| (i * 13 % 977) as u32).collect();
+    let tagf = |i: usize| if i % 211 == 3 { vec![("k".to_string(), TagValue::U64(i as u64))] } else { vec![] };
+    let mut outs: Vec<Vec<u8>> = vec![];
+    let mut works = 0;
+    for drip in [false, true] {
+        let (wa, ra) = new_stream::<u32>();
+        let (wb, rb) = new_stream::<u32>();
+        let (mut blk, o) = ToText::new(vec![ra, rb]);
+        let (mut pa, mut pb) = (0, 0);
+        let mut got: Vec<u8> = vec![];
+        let mut idle = 0;
+        while idle < 4 {
+            let fa = feed(&wa, &a, &mut pa, if drip { rng.pick(&[0, 1, 2, 9, 100]) } else { usize::MAX }, &tagf);
+            let fb = feed(&wb, &b, &mut pb, if drip { rng.pick(&[0, 0, 1, 3, 50]) } else { usize::MAX }, &no_tags);
+            let v = work(t, seed, &mut blk)?;
+            works += 1;
+            let d = drain(&o, if drip { rng.pick(&[0, 1, 5, 17, 100_000]) } else { usize::MAX }, &mut got);
+            idle = if pa == a.len() && pb == b.len() && fa == 0 && fb == 0 && d == 0 && v != 0 { idle + 1 } else { 0 };
+        }
+        drain(&o, usize::MAX, &mut got);
+        outs.push(got);
+    }
+    if outs[0] != outs[1] {
+        let k = outs[0].iter().zip(outs[1].iter()).position(|(x, y)| x != y).unwrap_or(outs[0].len().min(outs[1].len()));
+        return Err(fail(t, "C08", "text-independent-of-chunking", format!("{} bytes one-shot, {} drip-fed; first difference at byte {k}", outs[0].len(), outs[1].len()), seed));
+    }
+    let lines = outs[0].iter().filter(|c| **c == b'\n').count();
+    if lines != b.len() {
+        return Err(fail(t, "C10", "one-line-per-complete-sample-tuple", format!("{lines} lines for {} complete sample pairs", b.len()), seed));
+    }
+    Ok(works)
+}
+
 // ------------------------------------------------------------------------------------------------ wpcr
 fn run_wpcr(seed: u64) -> Result<u64, Fail> {
     use rustradio::stream::new_nocopy_stream;
@@ -642,7 +683,7 @@ fn bx_io() {
             }
         }
     }));
-    let targets = std::env::var("BX_TARGETS").unwrap_or_else(|_| "rtlsdr,fsink,s2pdu,auenc,audec,sigmf,tcp,wpcr,il2p,stream".into());
+    let targets = std::env::var("BX_TARGETS").unwrap_or_else(|_| "rtlsdr,fsink,s2pdu,auenc,audec,sigmf,tcp,wpcr,il2p,stream,totext".into());
     let n: u64 = std::env::var("BX_N").ok().and_then(|s| s.parse().ok()).unwrap_or(40);
     let base: u64 = std::env::var("VERIF_SEED").ok().and_then(|s| s.parse().ok()).unwrap_or(1);
     let mut failed = false;
@@ -661,6 +702,7 @@ fn bx_io() {
                 "wpcr" => { if i > 0 { break; } run_wpcr(seed) }
                 "il2p" => run_il2p(seed),
                 "stream" => run_stream(seed),
+                "totext" => { if i > 7 { break; } run_totext(seed) }
                 "audec" => { if i > 1 { break; } run_audec(seed) }
                 "sigmf" => { if i > 1 { break; } run_sigmf(seed) }
                 _ => Ok(0),
